@@ -116,6 +116,7 @@ def execute(case):
         return dict(failures=[], nontrivial=False, classes=["seed_invalid"])
     model = ir.from_proto(proto)
     ctx = c03.Ctx(model)
+    ctx.allow_pending = False  # (an initializer entry without data makes the model invalid ONNX: no promise about passes)
     for op in edits:
         try:
             # no tensor-class swaps (not needed here) and no outputs beyond the operator's schema (the model would be
@@ -130,6 +131,16 @@ def execute(case):
                 c03.apply_op(ctx, op)
         except Exception:
             pass
+    if any(isinstance(op, list) and op and op[0] == 9 for op in edits):
+        # replace_all_uses_with may have closed a cycle (a node consuming its own output): such a model is not a valid
+        # one, and a pass refusing it (e.g. an unsafe removal) is not a contract violation
+        try:
+            copy_ = ir.from_proto(ir.to_proto(model))
+            copy_.graph.sort()
+            for f_ in copy_.functions.values():
+                f_.sort()
+        except Exception:
+            return dict(failures=[], nontrivial=False, classes=["cyclic_after_edits"])
     name = c05.PASSES[pidx % len(c05.PASSES)]
     analysing = name in ("CheckerPass", "ShapeInferencePass")
     fails = []
